@@ -46,6 +46,13 @@ fn ulps(x: f32, k: i64) -> f32 {
 
 /// the generated families; every point is (base_x +- ..., base_y +- ...) in ulps of the base
 fn points(family: &str, n: usize, bx: f32, by: f32, amp: i64, seed: u64, int: bool) -> Vec<(f32, f32)> {
+    // the two witnesses of coq/Proofs/BezierIEEEFinite.v (C01_T01g_ieee_refuted_finite[_2p22])
+    if family == "w23" {
+        return vec![(8388608.0, 8388609.0), (8388608.0, 8388608.0), (8388608.0, 8388608.0)];
+    }
+    if family == "w22" {
+        return vec![(4194304.0, 4194305.0), (4194304.5, 4194304.5), (4194304.5, 4194304.5)];
+    }
     let mut r = Rng(seed.wrapping_mul(0x9E37_79B9_7F4A_7C15) | 1);
     let mut v = Vec::with_capacity(n);
     let mut wx = 0i64;
@@ -210,19 +217,34 @@ fn child(a: &[String]) {
             assert!(sliders == 1, "the line did not decode to one slider");
             println!("ok {total} 0");
         }
-        "mirror" => println!("{}", mirror(&v, 3_000_000)),
+        "mirror" => {
+            let mx = v.iter().fold(0.0f32, |m, p| m.max(p.0.abs()).max(p.1.abs()));
+            println!("max |coordinate| {mx}; {}", mirror(&v, 3_000_000))
+        }
         _ => panic!("api"),
     }
 }
 
 fn main() {
     let args: Vec<String> = env::args().skip(1).collect();
+    if args.first().map(String::as_str) == Some("example") {
+        // the segment of C01_T01g_ieee_bounded_example, as the decoder produces it
+        let text = "osu file format v14\n\n[HitObjects]\n0,0,0,2,0,B|131072:-131072|-131072:131072|131072:131072,1,100\n";
+        let mut h: HitObjects = rosu_map::from_str(text).expect("decode");
+        for o in h.hit_objects.iter_mut() {
+            if let HitObjectKind::Slider(s) = &mut o.kind {
+                let cps: Vec<(u32, u32)> = s.path.control_points().iter().map(|p| (p.pos.x.to_bits(), p.pos.y.to_bits())).collect();
+                println!("control points (bits): {cps:?}");
+                println!("path vertices: {}", s.path.curve().path().len());
+            }
+        }
+        return;
+    }
     if args.first().map(String::as_str) == Some("case") {
         child(&args[1..]);
         return;
     }
     let quick = args.first().map(String::as_str) == Some("quick");
-    let out_of_range = args.get(1).map(String::as_str) == Some("out");
     let exe = env::current_exe().unwrap();
     let watchdog = Duration::from_secs(10);
     let mut ran = 0u64;
@@ -230,39 +252,73 @@ fn main() {
     let mut slowest = (Duration::ZERO, String::new());
     let mut per_family: std::collections::BTreeMap<String, (u64, u128, usize)> = Default::default();
 
-    let bases: Vec<(&str, f32, f32)> = vec![
-        ("+131072,+131072", 131072.0, 131072.0),
-        ("-131072,+131071.99", -131072.0, ulps(131072.0, -1)),
-        ("+131071.99,-131071.99", ulps(131072.0, -1), ulps(-131072.0, 1)),
-        ("+262144,-262144 (slider at the opposite corner)", 262144.0, -262144.0),
-        ("+262143.98,+262143.98", ulps(262144.0, -1), ulps(262144.0, -1)),
-        ("+65536,+100000.3", 65536.0, 100000.3),
-        // outside the parser's range (public constructors only)
-        ("2^20,2^20", 1048576.0, 1048576.0),
-        ("2^23,2^23", 8388608.0, 8388608.0),
-        ("2^24,-2^24", 16777216.0, -16777216.0),
-        ("2^30,2^30", 1073741824.0, 1073741824.0),
-        ("2^60,2^60", 1.1529215e18, 1.1529215e18),
-        ("2^100,2^100", 1.2676506e30, 1.2676506e30),
-        ("2^126,2^126", 8.507059e37, 8.507059e37),
-    ];
-    let families = ["ramp", "ramp2", "zig", "zigramp", "saw3", "saw4", "odd", "box", "walk", "two"];
-    let sizes: Vec<usize> = if quick { vec![3, 50, 400] } else { vec![3, 4, 5, 7, 50, 51, 100, 257, 500, 1000, 2000] };
-    let amps: Vec<i64> = if quick { vec![1, 30] } else { vec![1, 2, 3, 7, 30, 100] };
+    // streams:
+    //   in    around the corners of what a file can contain: +-131072 (absolute), +-262144 (relative
+    //         to a slider at the opposite corner); amplitudes of 1..100 ulps
+    //   deep  the same places, amplitudes of 1000 / 10000 ulps (many subdivisions)
+    //   gap   2^19 .. just below 2^22: beyond the parser's range, below the first finite hang
+    //         (public API only)
+    //   far   2^22 and beyond (public API only): a few witnesses, the loop does not return there;
+    //         plus the two segments of Proofs/BezierIEEEFinite.v
+    let stream = args.get(1).cloned().unwrap_or_else(|| "in".into());
+    let out_of_range = stream == "gap" || stream == "far";
+    let bases: Vec<(&str, f32, f32)> = match stream.as_str() {
+        "in" | "deep" => vec![
+            ("+131072,+131072", 131072.0, 131072.0),
+            ("-131072,+131071.99", -131072.0, ulps(131072.0, -1)),
+            ("+131071.99,-131071.99", ulps(131072.0, -1), ulps(-131072.0, 1)),
+            ("+262144,-262144 (slider at the opposite corner)", 262144.0, -262144.0),
+            ("+262143.98,+262143.98", ulps(262144.0, -1), ulps(262144.0, -1)),
+            ("+65536,+100000.3", 65536.0, 100000.3),
+        ],
+        "gap" => vec![
+            ("2^19,2^19", 524288.0, 524288.0),
+            ("2^20,-2^20", 1048576.0, -1048576.0),
+            ("2^21,2^21", 2097152.0, 2097152.0),
+            ("3*2^20,2^21", 3145728.0, 2097152.0),
+            ("4100000,-4100000 (every family stays below 2^22)", 4100000.0, -4100000.0),
+            ("-4000000,3.5*2^20 (every family stays below 2^22)", -4000000.0, 3670016.0),
+        ],
+        "far" => vec![
+            ("2^22,2^22", 4194304.0, 4194304.0),
+            ("2^23,2^23", 8388608.0, 8388608.0),
+            ("2^24,-2^24", 16777216.0, -16777216.0),
+            ("2^30,2^30", 1073741824.0, 1073741824.0),
+            ("2^100,2^100", 1.2676506e30, 1.2676506e30),
+            ("2^126,2^126", 8.507059e37, 8.507059e37),
+        ],
+        _ => panic!("stream"),
+    };
+    let families: Vec<&str> = if stream == "far" {
+        vec!["zig", "box"]
+    } else {
+        vec!["ramp", "ramp2", "zig", "zigramp", "saw3", "saw4", "odd", "box", "walk", "two"]
+    };
+    let sizes: Vec<usize> = match (stream.as_str(), quick) {
+        ("far", _) => vec![3, 5],
+        ("deep", _) => vec![5, 50, 500, 2000],
+        (_, true) => vec![3, 50, 400],
+        ("gap", false) => vec![3, 4, 5, 7, 50, 257, 1000],
+        _ => vec![3, 4, 5, 7, 50, 51, 100, 257, 500, 1000, 2000],
+    };
+    let amps: Vec<i64> = match (stream.as_str(), quick) {
+        ("far", _) => vec![1, 2],
+        ("deep", _) => vec![1000, 10000],
+        (_, true) => vec![1, 30],
+        _ => vec![1, 2, 3, 7, 30, 100],
+    };
     let seeds: u64 = if quick { 1 } else { 3 };
+    let watchdog = if stream == "far" { Duration::from_secs(3) } else { watchdog };
 
     let mut cases: Vec<Vec<String>> = Vec::new();
     for (_, bx, by) in &bases {
-        if (bx.abs() > 262144.0 || by.abs() > 262144.0) != out_of_range {
-            continue;
-        }
-        for f in families {
+        for &f in &families {
             for &n in &sizes {
                 for &a in &amps {
                     let randomised = matches!(f, "odd" | "box" | "walk" | "two");
                     for seed in 1..=(if randomised { seeds } else { 1 }) {
                         for api in ["new", "borrowed", "line"] {
-                            if api == "line" && (bx.abs() > 262144.0 || by.abs() > 262144.0) {
+                            if api == "line" && out_of_range {
                                 continue;
                             }
                             if api == "borrowed" && n > 100 {
@@ -283,11 +339,18 @@ fn main() {
             }
         }
     }
-    println!("{} cases, watchdog {} s each", cases.len(), watchdog.as_secs());
+    if stream == "far" {
+        for w in ["w23", "w22"] {
+            for api in ["new", "borrowed"] {
+                cases.push(vec![api.to_string(), w.to_string(), "3".into(), "0".into(), "0".into(), "0".into(), "0".into()]);
+            }
+        }
+    }
+    println!("stream {stream}: {} cases, watchdog {} s each", cases.len(), watchdog.as_secs());
     for c in &cases {
         let t0 = Instant::now();
-        // address space of the child limited to 4 GB: a loop that does not return keeps pushing arrays
-        let sh = format!("ulimit -v 4000000; exec {} case {}", exe.display(), c.join(" "));
+        // address space of the child limited to 2 GB: a loop that does not return keeps pushing arrays
+        let sh = format!("ulimit -v 2000000; exec {} case {}", exe.display(), c.join(" "));
         let mut ch = Command::new("sh").arg("-c").arg(&sh).stdout(Stdio::piped()).stderr(Stdio::null()).spawn().unwrap();
         let mut status = None;
         while t0.elapsed() < watchdog {
@@ -308,7 +371,7 @@ fn main() {
                 let mut m = c.clone();
                 m[0] = "mirror".into();
                 let out = Command::new(&exe).arg("case").args(&m).output().unwrap();
-                let msg = format!("NO RETURN within 10 s: case {} | {}", c.join(" "), String::from_utf8_lossy(&out.stdout).trim());
+                let msg = format!("NO RETURN within the watchdog: case {} | {}", c.join(" "), String::from_utf8_lossy(&out.stdout).trim());
                 println!("{msg}");
                 bad.push(msg);
             }
@@ -319,7 +382,7 @@ fn main() {
                     let mut m = c.clone();
                     m[0] = "mirror".into();
                     let mo = Command::new(&exe).arg("case").args(&m).output().unwrap();
-                    let msg = format!("ABNORMAL EXIT ({s}; memory limit 4 GB) after {} ms: case {} | {} | {}", el.as_millis(), c.join(" "), out.trim(), String::from_utf8_lossy(&mo.stdout).trim());
+                    let msg = format!("ABNORMAL EXIT ({s}; memory limit 2 GB) after {} ms: case {} | {} | {}", el.as_millis(), c.join(" "), out.trim(), String::from_utf8_lossy(&mo.stdout).trim());
                     println!("{msg}");
                     bad.push(msg);
                 } else {
